@@ -255,8 +255,13 @@ class Built:
                 s += ' = _D%d' % i
             params.append(s)
         if c['extra']:
-            params.append('_yatiml_extra = None' if c.get('extraann') == 'none'
-                          else '_yatiml_extra: OrderedDict = None')
+            xp = ('_yatiml_extra = None' if c.get('extraann') == 'none'
+                  else '_yatiml_extra: OrderedDict = None')
+            if c.get('extramid'):
+                nreq = len([p for p in c['params'] if p['required']])
+                params.insert(1 + nreq, xp)
+            else:
+                params.append(xp)
         if c.get('kwonly'):
             params.append('*')
             for k in c['kwonly']:
